@@ -173,6 +173,8 @@ def run(tier, rng, C):
                 parts = dict(p.split(' ', 1) if ' ' in p else (p, '') for p in o[3:].split(' || '))
                 if parts.get('A') != parts.get('DA') or parts.get('C') != parts.get('DC') or parts.get('N') != parts.get('DN') or parts.get('SAME') != 'T':
                     fail(c, 'py:as_dict-differs', 'Inventory.as_dict() differs from the attribute views', o)
+                elif parts.get('AGAIN') != 'T':
+                    fail(c, 'py:view-not-fresh', 'after Python edited the dicts it received, the views of the inventory no longer show the rendered data', o)
                 continue
             if ' ## ' not in o:
                 # the call did not come back with a Python-side and a Rust-side observation: a panic (PanicException),
@@ -207,6 +209,8 @@ def run(tier, rng, C):
                 continue
             if parts['D'] != parts['P'] or parts['C'] != parts['DC'] or parts['A'] != parts['DA']:
                 fail(c, 'py:as_dict-differs', 'NodeInfo.as_dict() differs from the attribute views', o)
+            if parts.get('AGAIN') != 'T':
+                fail(c, 'py:view-not-fresh', 'after Python edited the dicts it received, parameters / as_dict() no longer show the rendered data', o)
             keys = [unhx(t[1:]) for t in parts.get('KEYS', '').split(' ')[1:]]
             missing = [k for k in ('__reclass__', 'applications', 'classes', 'environment', 'exports', 'parameters') if k not in keys]
             if missing:
